@@ -77,7 +77,9 @@ func checkC17Engine(c Node) Verdict {
 	for mask := 1; mask < 8; mask++ {
 		st, opts, sig := Style{}, []string{}, append([]string{}, base...)
 		if mask&1 != 0 {
-			st.PG, st.QuoteAll = true, true
+			// every identifier of an expression double-quoted; plain table names stay bare, so that the same
+			// text is also a valid statement without the option (where "a" is a string literal)
+			st.PG, st.QuoteAll, st.BareFrom = true, true, true
 			opts = append(opts, "pg")
 			sig = append(sig, "opt:pg")
 		}
